@@ -363,6 +363,26 @@ def worker(argv):
         if ra.digest() != rb.digest() or hit:
             mism.append({"index": i, "disabled": disabled, "evaluated_although_disabled": hit, "digest_with": ra.digest(), "digest_without": rb.digest(), "world": w, "tickets": tickets})
     out["mixed"] = {"compared": ncmp, "mismatches": mism[:3], "n_mismatches": len(mism)}
+    # F: invariant worlds (C03) whose invariants use mixed ``enabled`` forms, judged in THIS configuration by C03's invariant
+    #    model with the enabledness the configuration implies: explicitly enabled invariants must be enforced around every
+    #    public operation whether or not the neighbouring default/SLOW ones are in force
+    c03 = runmod.load("C03")
+    cfg = {"optimize": sys.flags.optimize > 0, "slow": os.environ.get("ICONTRACT_SLOW", "") != ""}
+    model_bad = []
+    n_model = 0
+    for i in range(n * 24):
+        scn = c03.generate(gen.rng_for(seed, "C15:forms", i), "quick", forms=True)
+        scn["_cfg"] = cfg
+        try:
+            res = c03.execute(scn)
+        except BaseException as e:  # pylint: disable=broad-except
+            model_bad.append({"index": i, "error": "%s: %s" % (type(e).__name__, str(e)[:200])})
+            continue
+        n_model += 1
+        if res.get("violations"):
+            v = res["violations"][0]
+            model_bad.append({"index": i, "rule": v["rule"], "classifier": v["classifier"], "detail": v.get("detail"), "classes": scn["classes"]})
+    out["forms_model"] = {"judged": n_model, "mismatches": model_bad[:3], "n_mismatches": len(model_bad)}
     # D: the violation messages of the (explicitly enabled) fixture contracts of C20, to be compared across configurations
     import copy as _copy
 
@@ -436,6 +456,10 @@ def main_check(tier, seed):
             cells.add((cfg,) + tuple(c))
         for pr in res["problems"]:
             violations.append({"rule": "C15.R1", "classifier": "matrix:%s:%s" % (cfg, ":".join(pr["cell"])), "detail": pr, "config": cfg})
+        fm = res.get("forms_model") or {}
+        if fm.get("n_mismatches"):
+            mm = fm["mismatches"][0]
+            violations.append({"rule": "C15.R2", "classifier": "enabled-invariant-not-enforced-as-modelled:%s:%s" % (cfg, mm.get("classifier") or "error"), "detail": mm, "config": cfg})
         if res["mixed"]["n_mismatches"]:
             violations.append({"rule": "C15.R1", "classifier": "disabled-contract-not-absent-in-simulation:%s" % cfg, "detail": res["mixed"]["mismatches"][0], "config": cfg})
     if results:
@@ -463,6 +487,7 @@ def main_check(tier, seed):
             for d in lst:
                 digests.add(str(d[0]))
         nruns += res["mixed"]["compared"] * 2
+        nruns += (res.get("forms_model") or {}).get("judged", 0)
     os.makedirs(os.path.join(VERIF, "replays"), exist_ok=True)
     seen = set()
     for v in violations:
